@@ -9,7 +9,19 @@ use rivia::verif::Dump;
 use crate::{engine::catch, fstypes::*, obs::errkind};
 
 fn ps(p: PathBuf) -> String {
-    p.to_str().map(|s| s.to_string()).unwrap_or_else(|| format!("<non-utf8:{:?}>", p))
+    // bytes that are not valid UTF-8 become private-use characters (U+F700 + byte): the text keeps its structure
+    // (separators, components), so the invariants judge such a key like any other
+    p.to_str().map(|s| s.to_string()).unwrap_or_else(|| {
+        use std::os::unix::ffi::OsStrExt;
+        let mut out = String::new();
+        for chunk in p.as_os_str().as_bytes().utf8_chunks() {
+            out.push_str(chunk.valid());
+            for b in chunk.invalid() {
+                out.push(char::from_u32(0xF700 + *b as u32).unwrap_or('\u{fffd}'));
+            }
+        }
+        out
+    })
 }
 
 fn r_unit(r: RvResult<()>) -> Out {
